@@ -1,35 +1,35 @@
 SPECIFICATION MCSpec
 CONSTANTS
-  Nodes = {"a","b","c"}
-  Voters0 = {"a","b","c"}
+  Nodes = {"a", "b", "c", "d"}
+  Voters0 = {"a", "b", "c"}
   Observers = {}
   Nil = "Nil"
-  BatchBytes = 50
+  BatchBytes = 300
   UseBatch = TRUE
   WaitLeader = TRUE
   QueueSize = 10
-  SpecialCids = {}
+  SpecialCids = {"m1", "m2"}
   Raisers = {}
   InitConnected = TRUE
-  Membership = FALSE
+  Membership = TRUE
   CompactMin = 1000000
   SnapChunk = 65536
-  Cmds = {}
+  Cmds = {"c1"}
   CmdSize = 40
-  MaxTerm = 2
-  MaxLog = 4
+  MaxTerm = 1
+  MaxLog = 5
   MaxChan = 2
   MaxFaults = 0
-  Electors = {"a","b","c"}
-  SubmitAt = {}
-  Advs0 = {"z","j"}
+  Electors = {"a"}
+  SubmitAt = {"a"}
+  Advs0 = {"h", "j"}
   SnapSize = 100
   Compactors = {}
   FaultPairs = {{"a","b"},{"a","c"},{"b","c"},{"a","d"},{"b","d"},{"c","d"},{"a","e"},{"b","e"},{"c","e"},{"d","e"}}
   Isolated0 = {}
-  MembCids = {}
-  MembTargets = {}
-  Spares = {}
+  MembCids = {"m1", "m2"}
+  MembTargets = {"c", "d"}
+  Spares = {"d"}
   MaxDepth = 100
 CONSTRAINT Bound
 INVARIANT ApplyAgreement
